@@ -78,7 +78,12 @@ func init() {
 		Holds:       true,
 		StopSetters: 2,
 	}
-	fw.Families["C14"] = func(k *fw.Case) { trace.RunCase(k, c14) }
+	fw.Families["C14"] = func(k *fw.Case) {
+		trace.RunCase(k, c14)
+		if k.Index%4 == 0 {
+			trace.TagEquivalence(k)
+		}
+	}
 
 	c15 := &trace.Config{
 		Methods:  trace.EngineMethods,
